@@ -18,6 +18,26 @@ fn conv(a: &[i32], b: &[i32]) -> Vec<i64> {
     if a.is_empty() || b.is_empty() {
         return vec![];
     }
+    if a.len() as u64 * b.len() as u64 > 50_000_000 {
+        // long operands: exact schoolbook in i64 (|result| <= 1e12 inside the envelope, checked), output
+        // index ranges in parallel
+        let n = a.len() + b.len() - 1;
+        let bound = a.iter().map(|x| x.unsigned_abs() as u128).max().unwrap() * b.iter().map(|x| x.unsigned_abs() as u128).max().unwrap() * a.len().min(b.len()) as u128;
+        assert!(bound < (1u128 << 62), "reference convolution would overflow i64");
+        let (s, l): (&[i32], &[i32]) = if a.len() <= b.len() { (a, b) } else { (b, a) };
+        return (0..n)
+            .into_par_iter()
+            .map(|k| {
+                let lo = k.saturating_sub(l.len() - 1);
+                let hi = k.min(s.len() - 1);
+                let mut acc = 0i64;
+                for i in lo..=hi {
+                    acc += s[i] as i64 * l[k - i] as i64;
+                }
+                acc
+            })
+            .collect();
+    }
     let mut r = vec![0i128; a.len() + b.len() - 1];
     for (i, &x) in a.iter().enumerate() {
         if x == 0 {
@@ -296,7 +316,7 @@ enum HOp {
 }
 
 fn history_alphabet() -> Vec<HOp> {
-    vec![HOp::Mul(2, 2, 0), HOp::Mul(33, 31, 2), HOp::Mul(600, 500, 8), HOp::Mul(1, 1, 1), HOp::Update(256), HOp::Fft(64), HOp::Mul(0, 3, 0)]
+    vec![HOp::Mul(2, 2, 0), HOp::Mul(33, 31, 2), HOp::Mul(600, 500, 8), HOp::Mul(1, 1, 1), HOp::Update(256), HOp::Fft(64), HOp::Mul(0, 3, 0), HOp::Mul(70_000, 3, 8)]
 }
 
 fn run_history(ops: &[HOp]) -> Result<(), String> {
@@ -520,9 +540,12 @@ fn main() {
 
     // --- part 3: envelope corners with long vectors -----------------------------------------------
     let mut corner_specs = vec![];
-    let corners: Vec<(usize, usize)> = if quick { vec![(1, 1), (1000, 1000), (4096, 1), (1, 5000), (3000, 2000)] } else { vec![(1, 1), (1000, 1000), (4096, 1), (1, 5000), (3000, 2000), (65536, 65536), (65537, 3), (100_000, 1000), (1_000_000, 2)] };
+    // the largest corners need transform sizes 2^17 and 2^18: table levels and index widths that no
+    // smaller call reaches
+    let corners: Vec<(usize, usize)> = if quick { vec![(1, 1), (1000, 1000), (4096, 1), (1, 5000), (3000, 2000), (65536, 65536), (65537, 3)] } else { vec![(1, 1), (1000, 1000), (4096, 1), (1, 5000), (3000, 2000), (65536, 65536), (65537, 3), (100_000, 100_000), (100_000, 1000), (1_000_000, 2), (262_144, 262_144)] };
     for &(la, lb) in &corners {
-        for &(ka, kb) in &[(0u8, 0u8), (2, 2), (8, 8), (1, 0)] {
+        let pats: &[(u8, u8)] = if la as u64 * lb as u64 > 1_000_000_000 { &[(0, 0), (8, 8)] } else { &[(0, 0), (2, 2), (8, 8), (1, 0)] };
+        for &(ka, kb) in pats {
             let a = amax(Prec::F64, la, lb).min(1_000_000);
             corner_specs.push(CallSpec { prec: Prec::F64, state: 4, grown_by_multiply: false, a: pattern(ka, la, a), b: pattern(kb, lb, a) });
             if la * lb <= 4_000_000 {
